@@ -24,7 +24,7 @@ ASSUMPTIONS = ['reference constants: base tx 10 bytes, P2PKH spend 148 bytes wit
                'pre-chosen spendable inputs are reserved by the caller before create(), as the library\'s own caller Account.fund does',
                'requested output script bytes are taken from the library (script encoding is C15\'s subject)',
                'branch_and_bound / closest_match chosen on their own are partial selectors: refusal judged by that rule\'s own feasibility']
-REQUIRED_HITS = ['O6.injected_sign_failure', 'O1.checked', 'O2.checked', 'O3.checked', 'O4.change_checked', 'O4.nochange_checked', 'O5.refusal_justified',
+REQUIRED_HITS = ['O6.refusal_after_reservation', 'O6.injected_sign_failure', 'O1.checked', 'O2.checked', 'O3.checked', 'O4.change_checked', 'O4.nochange_checked', 'O5.refusal_justified',
                  'O5.success_when_sufficient', 'O6.checked', 'branch.retry_loop', 'req.pay', 'req.claim_create', 'req.claim_update',
                  'req.support', 'req.purchase', 'req.spend_all', 'req.small_deficit', 'strategy.sqlite', 'strategy.random_draw',
                  'strategy.prefer_confirmed', 'strategy.only_confirmed', 'strategy.branch_and_bound', 'strategy.closest_match',
@@ -37,7 +37,8 @@ class InjectedFault(Exception):
 
 
 STRATS = ['sqlite', 'prefer_confirmed', 'only_confirmed', 'standard', 'branch_and_bound', 'closest_match', 'random_draw', None]
-UTXO_CLASSES = ['plain', 'plain', 'dust_heavy', 'exact', 'single_big', 'whale', 'unconfirmed_mix', 'two_accounts', 'tiny_wallet', 'many']
+UTXO_CLASSES = ['plain', 'plain', 'dust_heavy', 'exact', 'single_big', 'whale', 'unconfirmed_mix', 'two_accounts', 'tiny_wallet', 'many',
+                'liquidation']
 
 
 def plan(tier):
@@ -80,6 +81,10 @@ def make_utxos(r, uclass, rate, big):
         am = [amt() for _ in range(max(n, 4))]
     elif uclass == 'tiny_wallet':
         am = [r.randrange(1, spend * 3) for _ in range(r.randrange(0, 4))]
+    elif uclass == 'liquidation':
+        # a few coins each worth little more than their own spend fee: liquidating one walks the "no output yet" retry loop, selects
+        # and reserves more coins pass by pass, and may still end in a refusal AFTER outputs were reserved (seeded break C03-B)
+        am = [spend + r.randrange(1, 56 * rate + 1000) for _ in range(r.randrange(1, 5))]
     else:  # many
         am = [r.randrange(spend + 1, 10 ** 7) for _ in range(r.randrange(100, 240))]
     return am
@@ -130,6 +135,8 @@ async def _run_wallet(rec, case):
             # ---------------- choose a request
             kind = r.choice(['pay', 'pay', 'pay', 'pay_multi', 'claim_create', 'claim_update', 'support', 'support_data',
                              'purchase', 'spend_all', 'abandon', 'small_deficit', 'small_deficit'])
+            if uclass == 'liquidation' and r.random() < 0.8:
+                kind = 'spend_all'
             frac = r.choice([1e-6, 0.01, 0.3, 0.5, 0.9, 0.99, 0.999, 1.0, 1.001, 1.5, 'exact', 'exact'])
             base_amt = max(1, P)
             if frac == 'exact' and elig:
@@ -246,6 +253,15 @@ async def _run_wallet(rec, case):
                 for t in plain_pre:
                     pre[t.id]['is_reserved'] = True
             # ---------------- the call under test
+            reservations = [0]
+            real_reserve = ledger.db.reserve_outputs
+
+            async def counting_reserve(txos, is_reserved=True):
+                txos = list(txos)
+                if is_reserved and txos:
+                    reservations[0] += 1
+                return await real_reserve(txos, is_reserved)
+            ledger.db.reserve_outputs = counting_reserve
             tx = err = None
             inject = kind in ('pay', 'pay_multi', 'purchase', 'spend_all', 'small_deficit') and r.random() < 0.08
             real_sign = Transaction.sign
@@ -271,6 +287,9 @@ async def _run_wallet(rec, case):
                               {'kind': kind, 'strategy': strategy, 'D': D, 'P': P, 'n_eligible': len(elig)})
             finally:
                 Transaction.sign = real_sign
+                ledger.db.reserve_outputs = real_reserve
+            if err is not None and isinstance(err, InsufficientFundsError) and reservations[0]:
+                rec.hit('O6.refusal_after_reservation')
             post = await fx.txo_snapshot()
             sig_branch = None
             if err is not None:
